@@ -5,6 +5,8 @@ EXTENDS MapOps, SequencesExt, Json
 
 CONSTANTS ValSet, Kinds, CutLen
 ElemDef == ValSet \cup {NULL}
+\* a float alphabet with the two infinities
+InfSet == {0, 1, PINFM, NINFM}
 
 BIG  == 1000000                \* stands for i32::MAX / i32::MIN lags (any |n| >= len behaves alike)
 TMIN == 0 - 1000000            \* the element type's minimum / maximum, mapped by the harness
